@@ -174,15 +174,16 @@ def _execute(spec, ses):
                 counters["observations"] += 1
                 key = (r, kind, st.get("fuse", True))
                 if key not in memo:
+                    # one pristine process per (member, fuse): it observes every kind this session will ask about that member
+                    wants = sorted({s_["kind"] for s_ in spec["steps"] if s_.get("do") == "observe" and s_["r"] == r and s_.get("fuse", True) == st.get("fuse", True)})
                     sub = W.prune(recipe, [r])
                     resp = pristine.call_eval(spec["hash_seed"], {"kind": "recipe", "recipe": sub, "targets": [r], "use_knobs": True,
-                                                                  "fuse": st.get("fuse", True),
-                                                                  "want": [{"result": "result", "parts": "parts", "optimized_name": "optimized_name", "divisions": "divisions",
-                                                                            "npartitions": "npartitions", "len": "len"}[kind]]})
-                    if "descs" not in resp:
-                        memo[key] = {"error": "refusal", "sig": "build"}
-                    else:
-                        memo[key] = resp["descs"][str(r)].get(kind if kind != "optimized_name" else "optimized_name")
+                                                                  "fuse": st.get("fuse", True), "want": wants})
+                    for k_ in wants:
+                        if "descs" not in resp:
+                            memo[(r, k_, st.get("fuse", True))] = {"error": "refusal", "sig": "build"}
+                        else:
+                            memo[(r, k_, st.get("fuse", True))] = resp["descs"][str(r)].get(k_)
                 there = memo[key]
                 if isinstance(there, dict) and "error" in there:
                     counters["indeterminate"] += 1
